@@ -22,6 +22,7 @@ var c12Members = []struct {
 	{"\n", " ", true},
 	{"\xc2\xa0", "\xc2\xa0", false}, // NO-BREAK SPACE is not a space, tab or line ending
 	{"\\]", "\\]", false},
+	{"\\", "\\", false}, // a literal backslash (not before a bracket: never the last unit, never before "\\]")
 }
 
 // c12Norm: Unicode case fold, collapse runs of space/tab/line ending to one space, trim those.
@@ -54,6 +55,12 @@ func c12Label(k int) (units []int, text []byte) {
 		text = append(text, c12Members[u].bytes...)
 	}
 	assume(lf <= 1) // two line endings could form a blank line, which ends the paragraph
+	for i, u := range units {
+		if c12Members[u].bytes == "\\" {
+			// a backslash directly before "]" or "\\" would form an escape
+			assume(i+1 < len(units) && c12Members[units[i+1]].bytes[0] != '\\')
+		}
+	}
 	return
 }
 
@@ -67,6 +74,41 @@ func hasLink(n Node) bool {
 		}
 	}
 	return false
+}
+
+// H_C12_long(k, _): a label of k copies of U+0390 (two bytes each, folding to three
+// code points / six bytes): far below the 999-character limit as written, well above
+// 999 bytes after folding. Definition and uses (shortcut, full, collapsed image) must
+// resolve; the use spells one letter in a solver-chosen other case form.
+func H_C12_long(k, _ int) {
+	var label []byte
+	for i := 0; i < k; i++ {
+		label = append(label, 0xCE, 0x90)
+	}
+	tail := nondetByte()
+	assume(isL(tail))
+	var doc []byte
+	doc = append(doc, '[')
+	doc = append(doc, label...)
+	doc = append(doc, tail)
+	doc = append(doc, "]: /u\n\n["...)
+	doc = append(doc, label...)
+	doc = append(doc, tail^0x20) // the other ASCII case of the same letter
+	doc = append(doc, "] ![x]["...)
+	doc = append(doc, label...)
+	doc = append(doc, tail)
+	doc = append(doc, "]\n"...)
+	blocks, refs := Parse(doc)
+	out := renderWith(&HTMLRenderer{ReferenceMap: refs}, blocks)
+	n := 0
+	for i := 0; i+4 <= len(out); i++ {
+		if string(out[i:i+4]) == "\"/u\"" {
+			n++
+		}
+	}
+	check(n == 2, "C12.long-folded-label-resolves")
+	check(len(refs) == 1, "C12.long.single-key")
+	vdigest(out[:40])
 }
 
 // H_C12_norm(k1, k2): "[" L1 "]" blank "[" L2 "]: /u"
